@@ -374,6 +374,70 @@ func genFilter(r *rand.Rand, table string, maxID int) filterDesc {
 	return fd
 }
 
+// nullDenoting reports whether a filter value is sent to the database as NULL.
+func nullDenoting(col string, v interface{}) bool {
+	if v == nil {
+		return true
+	}
+	rv := reflect.ValueOf(v)
+	switch rv.Kind() {
+	case reflect.Ptr, reflect.Slice:
+		return rv.IsNil()
+	case reflect.String:
+		return col == "note" && rv.Len() == 0 // implicitnull
+	}
+	return false
+}
+
+// genWideFilter draws a filter over 9-12 columns of wides (hence at least 9
+// SQL arguments), at least one of them NULL-denoting. Values are taken from
+// sample (a row that exists initially) so that the filter can match.
+func genWideFilter(r *rand.Rand, sample *Wide) filterDesc {
+	fd := filterDesc{filter: sqlgen.Filter{}, reps: map[string]string{}}
+	cols := columnsOf["wides"]
+	n := 9 + r.Intn(4)
+	sv := reflect.ValueOf(sample).Elem()
+	for len(fd.filter) < n {
+		c := cols[r.Intn(len(cols))]
+		if _, dup := fd.filter[c[0]]; dup {
+			continue
+		}
+		level := 0
+		if r.Intn(4) == 0 {
+			level = 1
+		}
+		fd.filter[c[0]], fd.reps[c[0]] = represent(r, sv.FieldByName(c[1]).Interface(), level)
+	}
+	hasNull := false
+	for c, v := range fd.filter {
+		if nullDenoting(c, v) {
+			hasNull = true
+		}
+	}
+	if !hasNull {
+		c := [][2]string{{"p_i", "PI"}, {"p_s", "PS"}, {"p_b", "PB"}, {"p_t", "PT"}, {"p_f", "PF"}}[r.Intn(5)]
+		if r.Intn(2) == 0 {
+			fd.filter[c[0]], fd.reps[c[0]] = nil, "nil"
+		} else {
+			fd.filter[c[0]], fd.reps[c[0]] = reflect.Zero(sv.FieldByName(c[1]).Type()).Interface(), "typed-nil"
+		}
+	}
+	return fd
+}
+
+// wideNull: at least 9 SQL arguments of which at least one is NULL.
+func (f filterDesc) wideNull() bool {
+	if len(f.filter) < 9 {
+		return false
+	}
+	for c, v := range f.filter {
+		if nullDenoting(c, v) {
+			return true
+		}
+	}
+	return false
+}
+
 // ---- binlog value forms ----
 
 type blForm int
